@@ -100,7 +100,7 @@ def generate_dispatch(ov, arganal):
         lookup.append(f"{lookup_for(i)}({name})")
         i += 1
 
-    if len(po) <= 1 and (spr or spo):
+    if len(spo + po) <= 1 and (spr or spo):
         # If there are more than one non-strictly positional optional arguments,
         # then all positional arguments are strictly positional, because if e.g.
         # x and y are optional we want x==MISSING to imply that y==MISSING, but
@@ -116,7 +116,7 @@ def generate_dispatch(ov, arganal):
         lookup.append(f"{lookup_for(i)}({name})")
         i += 1
 
-    if len(po) > 1:
+    if len(spo + po) > 1:
         args.append("/")
 
     if kr or ko:
